@@ -154,13 +154,13 @@ fn sched(s: &mut Src, max_bytes: usize) -> Sched {
         1 => {
             let n = s.range(0, 10);
             let prio = (0..n).map(|_| s.u8()).collect();
-            let k = s.range(0, 4);
-            let changes = (0..k).map(|_| (s.range(0, 9) as u8, s.range(0, 119) as u16, s.range(0, 39) as u8)).collect();
+            let k = s.range(0, 6);
+            let changes = (0..k).map(|_| (s.range(0, 9) as u8, s.range(0, 71) as u16, s.range(0, 39) as u8)).collect();
             Sched::Pct { prio, changes }
         }
         _ => {
-            let k = s.range(0, 5);
-            let points = (0..k).map(|_| (s.range(0, 9) as u8, s.range(0, 149) as u16, s.u8())).collect();
+            let k = s.range(0, 6);
+            let points = (0..k).map(|_| (s.range(0, 9) as u8, s.range(0, 71) as u16, s.u8())).collect();
             Sched::Delay { points, rr: s.u8() & 1 == 1 }
         }
     }
